@@ -113,6 +113,7 @@ func Loop(ctx context.Context, lst Accepter, newService func() Service, opts *Lo
 			assigner, err := svc.Assigner()
 			if err != nil {
 				log("Service initialization failed: %v", err)
+				ch.Close()
 				return
 			}
 
